@@ -87,6 +87,92 @@ EXT_SIGNATURES = {
     "rasterio.features.rasterize": ("shapes", "out_shape", "fill"),
 }
 
+# documented default values of options of third-party / builtin callables (trusted): a keyword that passes the default is the
+# same call as one that omits it ("explicit is better than implicit" refactors)
+EXT_DEFAULTS = {
+    "scipy.sparse.csgraph.connected_components": {"directed": True, "connection": "weak", "return_labels": True},
+    "scipy.optimize.linear_sum_assignment": {"maximize": False},
+    "numpy.mean": {"axis": None, "dtype": None, "out": None, "keepdims": False},
+    "numpy.nanmean": {"axis": None, "dtype": None, "out": None, "keepdims": False},
+    "numpy.sum": {"axis": None, "dtype": None, "out": None, "keepdims": False},
+    "numpy.max": {"axis": None, "out": None, "keepdims": False},
+    "numpy.min": {"axis": None, "out": None, "keepdims": False},
+    "numpy.concatenate": {"axis": 0, "out": None, "dtype": None},
+    "numpy.stack": {"axis": 0, "out": None},
+    "numpy.diff": {"n": 1, "axis": -1},
+    "numpy.isclose": {"rtol": 1e-05, "atol": 1e-08, "equal_nan": False},
+    "numpy.allclose": {"rtol": 1e-05, "atol": 1e-08, "equal_nan": False},
+    "numpy.round": {"decimals": 0, "out": None},
+    "numpy.around": {"decimals": 0, "out": None},
+    "numpy.linspace": {"endpoint": True, "retstep": False, "dtype": None, "axis": 0},
+    "numpy.array": {"dtype": None, "copy": True, "order": "K", "subok": False, "ndmin": 0},
+    "numpy.asarray": {"dtype": None, "order": None},
+    "numpy.zeros": {"order": "C"},
+    "numpy.ones": {"order": "C"},
+    "numpy.searchsorted": {"side": "left", "sorter": None},
+    "numpy.argsort": {"axis": -1, "kind": None, "order": None},
+    "numpy.sort": {"axis": -1, "kind": None, "order": None},
+    "numpy.isnan": {"out": None},
+    "numpy.floor": {"out": None},
+    "numpy.eye": {"M": None, "k": 0, "order": "C"},
+    "sklearn.metrics.accuracy_score": {"normalize": True, "sample_weight": None},
+    "sklearn.metrics.balanced_accuracy_score": {"sample_weight": None, "adjusted": False},
+    "sklearn.metrics.top_k_accuracy_score": {"k": 2, "normalize": True, "sample_weight": None, "labels": None},
+    "sklearn.metrics.average_precision_score": {"average": "macro", "pos_label": 1, "sample_weight": None},
+    "sklearn.metrics.jaccard_score": {"labels": None, "pos_label": 1, "average": "binary", "sample_weight": None, "zero_division": "warn"},
+    "shapely.buffer": {"quad_segs": 8, "cap_style": "round", "join_style": "round", "mitre_limit": 5.0, "single_sided": False},
+    "shapely.transform": {"include_z": False},
+    "shapely.to_geojson": {"indent": None},
+    "rasterio.features.rasterize": {"out": None, "fill": 0, "all_touched": False, "merge_alg": None, "default_value": 1, "dtype": None},
+    "scipy.sparse.coo_array": {"copy": False},
+    "scipy.signal.resample": {"t": None, "axis": 0, "window": None, "domain": "time"},
+    "os.walk": {"topdown": True, "onerror": None, "followlinks": False},
+    "os.path.relpath": {},
+    "json.loads": {"cls": None, "object_hook": None, "parse_float": None, "parse_int": None, "parse_constant": None, "object_pairs_hook": None},
+    "uuid.uuid4": {},
+    "itertools.product": {"repeat": 1},
+    "builtin:sorted": {"key": None, "reverse": False},
+    "builtin:enumerate": {"start": 0},
+    "builtin:round": {"ndigits": None},
+    "builtin:zip": {"strict": False},
+    "builtin:int": {"base": 10},
+    "builtin:print": {},
+    "builtin:min": {"key": None},
+    "builtin:max": {"key": None},
+    "builtin:sum": {"start": 0},
+    "builtin:open": {"mode": "r", "buffering": -1, "encoding": None, "errors": None, "newline": None, "closefd": True, "opener": None},
+}
+# the same for methods, by method name, restricted to options whose default no class in use here defines otherwise
+METHOD_DEFAULTS = {
+    "sort": {"key": None, "reverse": False},
+    "split": {"sep": None, "maxsplit": -1},
+    "rsplit": {"sep": None, "maxsplit": -1},
+    "model_dump": {"mode": "python", "include": None, "exclude": None, "by_alias": False, "exclude_unset": False, "exclude_defaults": False,
+                   "exclude_none": False, "round_trip": False, "warnings": True},
+    "model_dump_json": {"indent": None, "include": None, "exclude": None, "by_alias": False, "exclude_unset": False, "exclude_defaults": False,
+                        "exclude_none": False, "round_trip": False, "warnings": True},
+    "model_validate": {"strict": None, "from_attributes": None, "context": None},
+    "model_validate_json": {"strict": None, "context": None},
+    "model_copy": {"update": None, "deep": False},
+    "mean": {"axis": None, "dtype": None, "out": None, "keepdims": False},
+    "sum": {"axis": None, "dtype": None, "out": None, "keepdims": False},
+    "any": {"axis": None, "out": None, "keepdims": False},
+    "all": {"axis": None, "out": None, "keepdims": False},
+    "sel": {"method": None, "tolerance": None, "drop": False},
+    "isel": {"drop": False},
+    "resolve": {"strict": False},
+    "mkdir": {"mode": 0o777, "parents": False, "exist_ok": False},
+    "astype": {"copy": True},
+    "tolist": {},
+    "buffer": {"cap_style": "round", "join_style": "round", "mitre_limit": 5.0, "single_sided": False},
+    "get": {"default": None},
+    "pop": {},
+    "read": {"frames": -1, "dtype": "float64", "always_2d": False, "fill_value": None, "out": None},
+    "seek": {"whence": 0},
+    "encode": {"encoding": "utf-8", "errors": "strict"},
+    "decode": {"encoding": "utf-8", "errors": "strict"},
+}
+
 with open(os.path.join(os.path.dirname(os.path.abspath(__file__)), "pinned_assigns.json")) as _f:
     PINNED_ASSIGNS = {k: frozenset(v) for k, v in json.load(_f).items()}
 
@@ -1774,6 +1860,11 @@ class Evaluator:
         # stable: named keywords sorted, '**' spreads keep their relative order at the end
         named = sorted([kv for kv in kws if kv[0] != "**"], key=lambda kv: kv[0])
         spreads = [kv for kv in kws if kv[0] == "**"]
+        if named:
+            dflt = EXT_DEFAULTS.get(f[1]) if f[0] == "ext" else EXT_DEFAULTS.get("builtin:" + f[1]) if (f[0] == "builtin" and f[1] not in self.env) \
+                else METHOD_DEFAULTS.get(f[2]) if f[0] == "attr" else None
+            if dflt:
+                named = [(k_, v_) for k_, v_ in named if not (k_ in dflt and v_[0] == "const" and v_[1] == dflt[k_] and type(v_[1]) is type(dflt[k_]))]
         if f[0] == "ext" and f[1] in EXT_SIGNATURES and named and not spreads and not any(a[0] == "star" for a in args):
             sig = EXT_SIGNATURES[f[1]]
             kd = dict(named)
